@@ -24,7 +24,7 @@ CLAIMS.update({
          "4.C03"),
  "C14": ("bounded symbolic execution (symx, symbolic bytes) of the real PSBaseParser scanners and nexttoken() loop",
          "From every scanner state (with seeded partial tokens), for ALL byte strings of N symbolic bytes (256 values each) followed by end of input, the tokenizer raises nothing "
-         "but PSEOF, yields positions that are monotone and inside the input, makes bounded progress, and gives the same token sequence for BUFSIZ 4096 and every smaller size. N=3 quick, 4 thorough. Beyond the symbolic bound: each of 15 lexical forms repeated 4095..70000 times (read-buffer size, CPython's 4300-digit integer limit) at three buffer sizes, concrete.",
+         "but PSEOF, yields positions that are monotone and inside the input, makes bounded progress, and gives the same token sequence for BUFSIZ 4096 and every smaller size. N=3 quick, 4 thorough. Beyond the symbolic bound: each of 23 lexical forms - a unit repeated inside one token, or a whole token (comment line, number, name, string, hex string, array, a mixture) - repeated 4095..70000 times (read-buffer size, interpreter stack depth, CPython's 4300-digit integer limit) at three buffer sizes, concrete.",
          "4.C14"),
 })
 CLAIMS["C04"] = ("bounded symbolic execution (symx) of the real PDFPage.get_pages / create_pages / __init__ and PDFPageInterpreter.process_page + begin_page",
@@ -40,7 +40,7 @@ CLAIMS["C05"] = ("bounded symbolic execution (symx, real arithmetic) of the real
 CLAIMS["C16"] = ("bounded symbolic execution (symx, real arithmetic) of the real path-construction, painting, colour and q/Q/cm operators and PDFLayoutAnalyzer.paint_path against a reference model of ISO 32000-1 8.5",
          "For every program [q] state-op (w d G g RG rg K k cm, or a colour operator followed by sc/scn/SC/SCN) ; m|re + K construction operators chosen symbolically ; any painting operator ; [Q sc|SC] ; m l S, "
          "with ALL operands symbolic reals, each painted subpath yields one shape with the transformed end points in order, the right class (line / closed axis-aligned quadrilateral / curve), flags, line width, dash, "
-         "colours at painting time, q/Q restoring them, and n leaving no residue; five-point subpaths with all coordinates symbolic are classified line / rectangle / curve correctly; X ; q ; Y ; paint ; Q ; paint for every pair of state operators restores every component (CTM, width, dash, colours, colour spaces); for every pair of pages, each with none or one named colour space in its resources, a name selects what the page's OWN resources define whatever was interpreted before (predefined table unchanged). K=2 quick, 3 thorough; floats as reals.",
+         "colours at painting time, q/Q restoring them, and n leaving no residue; five-point subpaths with all coordinates symbolic are classified line / rectangle / curve correctly; X ; q ; Y ; paint ; Q ; paint for every pair of state operators restores every component (CTM, width, dash, colours, colour spaces); for every pair of pages, each with none or one named colour space in its resources, a name selects what the page's OWN resources define whatever was interpreted before (predefined table unchanged); m l [l] h followed by 0..2 further segments, with or without a second subpath, under closing and non-closing painting operators keeps every segment. K=2 quick, 3 thorough; floats as reals.",
          "4.C16")
 CLAIMS["C19"] = ("bounded symbolic execution (symx, symbolic pixels) of the real CCITTG4Parser coding steps, mode interpreter and ccittfaxdecode against the T.6 definitions and a reference T.6 encoder",
          "From every line state (all reference-line bits, a0, colour, coded prefix symbolic; W=8 quick, 10 thorough) one vertical / pass / horizontal step does what T.6 2.2 defines; for every bitmap of the bounded "
@@ -75,12 +75,12 @@ CLAIMS["C18"] = ("bounded symbolic execution (symx, symbolic bytes) of the real 
 CLAIMS["C15"] = ("symbolic execution of the real CMapDB._load_data and ImageWriter._create_unique_image_name: CrossHair (symbolic str over all of Unicode, budgeted) plus symx (every name over an 8-letter hostile alphabet, exhaustive)",
          "With the filesystem replaced by a recording stub whose exists() answers are symbolic, every path that a CMap name makes the library probe or open lies directly inside one of the two character-map "
          "directories, and the path chosen for an exported image lies directly inside the output directory, was reported non-existing and is the unique first free candidate - confirmed over all paths for "
-         "every name of length <= 4 over the alphabet '/', '.', NUL, backslash, letters, ':', '~', and for every name of length <= 7 over './a' with CMAP_PATH=/e/a/ (sibling directories such as ../aa/a); image names of 200..5000 characters in seven shapes satisfy the same contract (real calls selected by symbolic choices); CrossHair searches names of length <= 5 over all code points within its time budget (no counterexample; not a confirmation).",
+         "every name of length <= 4 over the alphabet '/', '.', NUL, backslash, letters, ':', '~', and for every name of length <= 7 over './a' with CMAP_PATH=/e/a/ (sibling directories such as ../aa/a); image names of 200..5000 characters in seven shapes satisfy the same contract; the real extract_text_to_fp with output_dir, run under an audit hook with pre-seeded directories on generated documents (10 hostile image names x 10 image kinds x 5 hostile font /Encoding names), creates files only directly inside the output directory, changes no existing file and opens for reading only the library's own resources (real calls selected by symbolic choices); CrossHair searches names of length <= 5 over all code points within its time budget (no counterexample; not a confirmation).",
          "4.C15")
 CLAIMS["C11"] = ("symbolic execution (symx; strings as symbolic choices over a hostile alphabet) of the real TextConverter / XMLConverter.receive_layout and utils.enc",
          "For every glyph text, font name and figure name of length <= 3 over an alphabet of XML-special, quote, control, non-ASCII and ordinary characters: the XML output parses with an independent XML parser and "
          "reproduces page, boxes, figure name, fonts, sizes and character data of the tree; the text output is the in-order concatenation with a line break per box and a form feed per page; a binary sink with each "
-         "listed codec holds the same characters as a text sink; enc() round-trips through html.unescape without raw markup; with strip_control each of the 32 C0 controls and DEL inside a glyph text leaves well-formed XML; for every sequence of 3 items from nine kinds (boxes of both orientations, figures, shapes, image, a text line directly on the page) the XML has the tree's structure and the text output is the in-order text. Exhaustive over the alphabet bound (confirmed over all paths).",
+         "listed codec holds the same characters as a text sink; enc() round-trips through html.unescape without raw markup; with strip_control each of the 32 C0 controls and DEL inside a glyph text leaves well-formed XML; for every sequence of 3 items from nine kinds (boxes of both orientations, figures, shapes, image, a text line directly on the page) the XML has the tree's structure and the text output is the in-order text; extract_text_to_fp itself, on two generated documents sharing object numbers, for every output type / sink / codec / LAParams / page selection / strip_control / caching flag / call history equals the text and XML of layout trees built independently from the same bytes. Exhaustive over the alphabet bound (confirmed over all paths).",
          "4.C11")
 CLAIMS["C06"] = ("symbolic execution (symx) of the real EncodingDB.get_encoding, name2unicode, PDFSimpleFont.to_unichr and PDFType1Font/PDFType3Font width handling",
          "For every Differences array of up to 3 items (codes and glyph names by symbolic choice) over each base encoding the result is the base table overlaid per ISO 9.6.6 and the shared tables are untouched; "
@@ -100,7 +100,7 @@ CLAIMS["C10"] = ("bounded symbolic execution (symx) of the security handlers: ke
          "(EncryptMetadata on/off) every user and owner password of 0/1/33 symbolic bytes, every signed 32-bit P and symbolic ID derive exactly the Algorithm-2 file key and are accepted; R5/R6 authenticate recovers the file key from "
          "UE/OE for both passwords; _r6_password equals Algorithm 2.B for 64..66 rounds under 2 (quick) / 5 (thorough) SHA-selection patterns; permission flags equal bits 3,4,5 of every signed 32-bit P; every non-empty string leaf "
          "is deciphered exactly once with the enclosing (objid, genno) and object-stream members not at all, caching on or off; PKCS#5 padding of every length 1..16 is removed; per-object key material is key + objid[0:3] + genno[0:2] "
-         "(+ sAlT) for symbolic objid/genno; EncryptMetadata=false bypasses exactly /Type /Metadata streams.",
+         "(+ sAlT) for symbolic objid/genno; EncryptMetadata=false bypasses exactly /Type /Metadata streams; end to end with the real primitives: documents enciphered by a reference encryptor written from the standards (six schemes, four password pairs, P, EncryptMetadata) open with either password to exactly the original strings, streams, text and permission flags, alone or before/after another encrypted document is opened or rejected, caching on/off, read twice, and two wrong passwords are rejected (grid of real runs selected by symbolic choices).",
          "4.C10")
 CLAIMS["C13"] = ("symbolic execution (symx) of the typed accessors, tree/chain walkers and leaf decoders on symbolically chosen damaged values and symbolic bytes; single-fault sweep of a seed document through the real extract_text driven by symbolic choices",
          "PARTIAL by design (fault sequences over whole real documents are whole-program runs): for every reference graph over 3 objects (self-loops, cycles, dangling) and every value kind each accessor terminates "
@@ -110,7 +110,7 @@ CLAIMS["C13"] = ("symbolic execution (symx) of the typed accessors, tree/chain w
          "4.C13")
 CLAIMS["C12"] = ("symbolic execution (symx) of the operations that touch process-wide or cached state (get_encoding, use_cmap, interning, init_resources, get_font, resolve_all/decipher_all, CMapDB caches), plus small end-to-end call histories driven by symbolic choices",
          "PARTIAL by design: arbitrary histories and interleavings of extract_* calls are whole-program runs; the claim is reduced to frame conditions - each operation leaves the shared tables / the document's own "
-         "dictionaries unchanged and returns what it returns in isolation, for every bounded history (Differences arrays, 3-call get_font histories over eight fonts - two sharing a descendant, two without /Encoding of which one recovers it from an embedded font program, two uses of standard-14 Helvetica with different Differences - with every EncodingDB table and the standard-14 metrics table compared before/after, 3-call CMapDB histories, "
+         "dictionaries unchanged and returns what it returns in isolation, for every bounded history (Differences arrays, 3-call get_font histories over eight fonts - two sharing a descendant, two without /Encoding of which one recovers it from an embedded font program, two uses of standard-14 Helvetica with different Differences - with every EncodingDB table and the standard-14 metrics table compared before/after, encrypted-document histories (C10.H7) with caching on/off and double reads, 3-call CMapDB histories, "
          "2 earlier interns) - and checked end to end on every 3-call history over two documents that share object numbers and font names, with caching on/off, page-at-a-time vs together, and interleaved "
          "page iterators. The inventory of module/class-level mutable containers is recomputed from the AST on every run.",
          "4.C12")
